@@ -390,3 +390,237 @@ def get_property(w, cfg):
         _canary(x, 'H')
     else:
         w.canary('canary: empty stream has H = 1', w.eq(x.s.H, 1.))
+
+
+# --------------------------------------------------------------------------- (2) every public mutator keeps the memo sound
+
+# name -> (setup tokens before priming, mutator tokens, kinds it applies to)
+MUTATORS = {
+    'T': ([], ['T'], 'lm'), 'P': ([], ['P'], 'lm'),
+    'phase=g': ([], ['ph:g'], 'l'), 'phase=l (collapse)': ([], ['ph:l'], 'm'),
+    'phases=gl': ([], ['phs:gl'], 'l'), 'phases=gls': ([], ['phs:gls'], 'm'),
+    'imol[ID]=x': ([], ['fl'], 'lm'), 'imol[ID]=0': ([], ['fl:zero'], 'lm'), 'imol[Water]=x': ([], ['flw'], 'lm'),
+    'mol=array': ([], ['mol'], 'lm'), 'set_flow': ([], ['setflow'], 'lm'),
+    'scale': ([], ['sc'], 'lm'), 'imul': ([], ['imul'], 'lm'), 'F_mol=': ([], ['Fmol'], 'lm'), 'empty': ([], ['empty'], 'lm'),
+    'mix_from(self+other)': ([], ['mix'], 'lm'), 'mix_from energy balance': ([], ['mixH'], 'lm'),
+    'mix_from(other)': ([], ['mixo'], 'lm'), 'separate_out': ([], ['sep'], 'l'),
+    'copy_like': ([], ['copylike'], 'lm'), 'copy_flow': ([], ['copyflow'], 'lm'),
+    'copy_thermal_condition': ([], ['copyTP'], 'lm'), 'copy_phase': ([], ['copyphase'], 'l'),
+    'link_with': ([], ['link'], 'lm'), 'unlink': (['link'], ['unlink'], 'lm'),
+    'linked stream T=': (['link'], ['oT'], 'lm'), 'linked stream flow edit': (['link'], ['ofl'], 'lm'),
+    'linked stream phase=': (['link'], ['oph:g'], 'l'),
+    'link_with then unlink': ([], ['link', 'unlink'], 'lm'),
+    'proxy T=': (['proxy'], ['pT'], 'lm'), 'proxy flow edit': (['proxy'], ['pfl'], 'lm'),
+    'flow_proxy flow edit': (['fproxy'], ['fpfl'], 'lm'),
+    'phase view flow edit': ([], ['vfl:l'], 'm'), 'phase view T=': ([], ['vT:g'], 'm'),
+    '_reset_thermo': ([], ['thermo:B'], 'lm'), '_reset_thermo there and back': ([], ['thermo:B', 'thermo:A'], 'lm'),
+    'H=': ([], ['H='], 'lm'), 'S=': ([], ['S='], 'l'),
+    'set_data(get_data())': (['getdata'], ['T', 'fl', 'setdata'], 'lm'),
+    'get_data;phases;set_data': (['getdata'], ['phs:gls', 'setdata'], 'lm'),
+    'reset_flow': ([], ['resetflow:g'], 'l'), 'reset_cache': ([], ['resetcache'], 'lm'),
+}
+
+
+def mutator_configs(tier):
+    out = []
+    kinds = ['l', 'gl'] if tier == 'quick' else ['l', 'g', 'gl', 'lL']
+    primes = [('H',), ('sigma',)] if tier == 'quick' else [('H',), ('sigma',), ('S',), ('V', 'Cn'), ('Hvap', 'epsilon')]
+    afters = {'quick': ['none', 'T'], 'thorough': ['none', 'T', 'fl', 'TP+fl']}[tier]
+    for kind in kinds:
+        tag = 'm' if len(kind) > 1 else 'l'
+        for mname, (pre, mut, where) in MUTATORS.items():
+            if tag not in where: continue
+            for prime in primes:
+                for after in afters:
+                    if tier == 'quick' and after != 'none' and prime != ('H',): continue
+                    out.append({'name': f'kind={kind};prime={"+".join(prime)};mutator={mname};after={after}',
+                                'kind': kind, 'pre': pre, 'prime': list(prime), 'mut': mut,
+                                'after': {'none': [], 'T': ['T'], 'fl': ['fl'], 'TP+fl': ['T', 'P', 'fl']}[after]})
+    return out
+
+
+def _final_props(x, prime):
+    props = list(prime) + [p for p in PRIMARY if p not in prime]
+    return props
+
+
+@group('C14/mutators', configs=mutator_configs,
+       functions=['thermosteam._stream:Stream.T', 'thermosteam._stream:Stream.P', 'thermosteam._stream:Stream.phase',
+                  'thermosteam._stream:Stream.phases', 'thermosteam._multi_stream:MultiStream.phases',
+                  'thermosteam._multi_stream:MultiStream.phase', 'thermosteam._stream:Stream.scale',
+                  'thermosteam._stream:Stream.F_mol', 'thermosteam._stream:Stream.__imul__', 'thermosteam._stream:Stream.empty',
+                  'thermosteam._stream:Stream.mix_from', 'thermosteam._stream:Stream.separate_out',
+                  'thermosteam._stream:Stream.copy_like', 'thermosteam._multi_stream:MultiStream.copy_like',
+                  'thermosteam._stream:Stream.copy_flow', 'thermosteam._multi_stream:MultiStream.copy_flow',
+                  'thermosteam._stream:Stream.copy_thermal_condition', 'thermosteam._stream:Stream.copy_phase',
+                  'thermosteam._stream:Stream.link_with', 'thermosteam._stream:Stream.unlink',
+                  'thermosteam._stream:Stream._reset_thermo', 'thermosteam._stream:Stream.H', 'thermosteam._stream:Stream.S',
+                  'thermosteam._multi_stream:MultiStream.H', 'thermosteam._stream:Stream.set_data',
+                  'thermosteam._stream:Stream.reset_flow', 'thermosteam._stream:Stream.set_flow',
+                  'thermosteam._multi_stream:MultiStream.set_flow', 'thermosteam._multi_stream:MultiStream.__getitem__',
+                  'thermosteam._stream:Stream.proxy', 'thermosteam._stream:Stream.flow_proxy',
+                  'thermosteam._stream:Stream._get_property', 'thermosteam._multi_stream:MultiStream._get_property'],
+       assumptions=['A-models', 'A-root'])
+def mutators(w, cfg):
+    x = X(w, cfg['kind'])
+    run_history(x, cfg['pre'])
+    for p in cfg['prime']:
+        read(x, x.s, p, f'prime {p}')
+        if x.p is not None:
+            read(x, x.p, p, f'prime proxy {p}')
+    run_history(x, cfg['mut'])
+    run_history(x, cfg['after'])
+    final_reads(x, _final_props(x, cfg['prime']))
+    _canary(x, cfg['prime'][0])
+
+
+# --------------------------------------------------------------------------- (3) handles that share data
+
+SHARERS = {
+    # name: (constructor token, read-through-other token prefix, mutate-through-other tokens, kinds)
+    'proxy': ('proxy', 'pr', ['pT', 'pfl'], 'lm'),
+    'link_with': ('link', 'or', ['oT', 'ofl'], 'lm'),
+    'flow_proxy': ('fproxy', 'fpr', ['fpfl'], 'lm'),
+    'phase view': (None, 'vr:l', ['vfl:l', 'vT:l'], 'm'),
+}
+
+
+def _shared_sequences(share, depth, props):
+    ctor, rd, muts, _ = SHARERS[share]
+    alphabet = []
+    for p in props:
+        alphabet += [f'r:{p}', f'{rd}:{p}']
+    alphabet += ['T', 'fl'] + muts
+    seqs = []
+    for d in range(2, depth + 1):
+        for seq in itertools.product(alphabet, repeat=d):
+            if any(a == b for a, b in zip(seq, seq[1:])): continue
+            nreads = sum(1 for t in seq if t.split(':')[0] in ('r', 'pr', 'or', 'fpr', 'vr'))
+            nmut = len(seq) - nreads
+            if nreads < 1 or nmut < 1: continue
+            # a history ending in a read adds nothing over the final reads
+            if seq[-1].split(':')[0] in ('r', 'pr', 'or', 'fpr', 'vr'): continue
+            # mutations before the first read cannot matter
+            if seq[0].split(':')[0] not in ('r', 'pr', 'or', 'fpr', 'vr'): continue
+            seqs.append(list(seq))
+    return seqs
+
+
+def shared_configs(tier):
+    out = []
+    depth = 4 if tier == 'quick' else 5
+    for kind in ['l', 'gl']:
+        tag = 'm' if len(kind) > 1 else 'l'
+        for share, (ctor, rd, muts, where) in SHARERS.items():
+            if tag not in where: continue
+            props = ['H'] if tier == 'quick' else ['H', 'sigma']
+            seqs = _shared_sequences(share, depth, props)
+            if tier == 'quick':
+                # depth 4 only in the shape read / mutate / read through the other / mutate
+                seqs = [q for q in seqs if len(q) <= 3 or
+                        (q[0].startswith('r:') != q[2].startswith('r:') and ':' in q[2] and q[2].split(':')[0] in ('r', 'pr', 'or', 'fpr', 'vr')
+                         and q[1] in ('T', 'fl') and q[3] in ('T', 'fl'))]
+            for when in (['before', 'after-first-read'] if ctor else ['before']):
+                for q in seqs:
+                    ops = ([ctor] + q) if when == 'before' else ([q[0], ctor] + q[1:])
+                    if when != 'before' and not q[0].startswith('r:'): continue
+                    out.append({'name': f'kind={kind};share={share};ctor={when};ops={",".join(q)}', 'kind': kind, 'ops': [o for o in ops if o],
+                                'final': props[0]})
+    return out
+
+
+@group('C14/shared', configs=shared_configs,
+       functions=['thermosteam._stream:Stream.proxy', 'thermosteam._stream:Stream.link_with', 'thermosteam._stream:Stream.flow_proxy',
+                  'thermosteam._multi_stream:MultiStream.__getitem__', 'thermosteam._stream:Stream._get_property',
+                  'thermosteam._multi_stream:MultiStream._get_property'],
+       assumptions=['A-models'])
+def shared(w, cfg):
+    x = X(w, cfg['kind'])
+    run_history(x, cfg['ops'])
+    props = [cfg['final']] + [p for p in ('H', 'sigma', 'V') if p != cfg['final']]
+    final_reads(x, props)
+    if isinstance(x.s, tmo.MultiStream):
+        for ph in x.s.phases:
+            for p in props:
+                read(x, x.s[ph], p, f'final view {ph}')
+    _canary(x, 'H')
+
+
+# --------------------------------------------------------------------------- end-to-end histories
+
+def _ok_history(seq):
+    reads = ('r', 'pr', 'or')
+    if any(a == b for a, b in zip(seq, seq[1:])): return False
+    kinds = [t.split(':')[0] for t in seq]
+    if not any(k in reads for k in kinds): return False          # nothing memoised: trivially fresh
+    if kinds[-1] in reads: return False                          # the final reads follow anyway
+    for once in ('proxy', 'link', 'thermo', 'phs'):
+        if kinds.count(once) > 1: return False
+    if 'pr' in kinds and ('proxy' not in kinds or kinds.index('proxy') > kinds.index('pr')): return False
+    if 'or' in kinds and ('link' not in kinds or kinds.index('link') > kinds.index('or')): return False
+    if 'oT' in kinds and ('link' not in kinds or kinds.index('link') > kinds.index('oT')): return False
+    if 'proxy' in kinds and 'thermo' in kinds: return False      # a proxy keeps the old package (no fresh-stream reading of it is defined)
+    if 'proxy' in kinds and 'pr' not in kinds: return False
+    if 'vfl' in kinds and 'ph' in kinds and kinds.index('ph') < kinds.index('vfl'): return False
+    # mutations before the first read cannot matter unless they change structure
+    first_read = next(i for i, k in enumerate(kinds) if k in reads)
+    if any(k in ('T', 'P', 'fl', 'sc') for k in kinds[:first_read]): return False
+    return True
+
+
+ALPHABET = {
+    ('l', 'quick'): ['r:H', 'r:sigma', 'T', 'ph:g', 'fl', 'sc', 'mix', 'link', 'oT', 'proxy', 'pr:H', 'thermo:B'],
+    ('gl', 'quick'): ['r:H', 'T', 'fl', 'vfl:l', 'ph:l', 'phs:gls', 'thermo:B'],
+    ('l', 'thorough'): ['r:H', 'r:sigma', 'r:S', 'T', 'P', 'ph:g', 'fl', 'sc', 'mix', 'link', 'oT', 'proxy', 'pr:H', 'thermo:B', 'phs:gl'],
+    ('gl', 'thorough'): ['r:H', 'r:sigma', 'T', 'P', 'fl', 'sc', 'mix', 'vfl:l', 'ph:l', 'phs:gls', 'proxy', 'pr:H', 'link', 'oT', 'thermo:B'],
+}
+DEEP = {   # restricted alphabets for the deep histories
+    'proxy': ['r:H', 'proxy', 'T', 'pr:H', 'fl'],
+    'phase': ['r:H', 'r:sigma', 'ph:g', 'ph:l', 'T'],
+    'class': ['r:H', 'phs:gl', 'ph:l', 'fl'],
+    'link': ['r:H', 'link', 'oT', 'or:H', 'T'],
+}
+
+
+def history_configs(tier):
+    out = []
+    seen = set()
+
+    def add(kind, seq, final):
+        key = (kind, tuple(seq), final)
+        if key in seen: return
+        seen.add(key)
+        out.append({'name': f'kind={kind};ops={",".join(seq)};final={final}', 'kind': kind, 'ops': list(seq), 'final': final})
+
+    depth = 3 if tier == 'quick' else 4
+    for kind in ['l', 'gl']:
+        alpha = ALPHABET[kind, tier]
+        for d in range(2, depth + 1):
+            for seq in itertools.product(alpha, repeat=d):
+                if _ok_history(seq):
+                    add(kind, seq, 'H')
+                    if tier == 'thorough' or 'r:sigma' in seq:
+                        add(kind, seq, 'sigma')
+    deep = {'quick': 4, 'thorough': 6}[tier]
+    for name, alpha in DEEP.items():
+        for d in range(depth + 1, deep + 1):
+            if tier == 'thorough' and d == 6 and name not in ('proxy',): continue
+            for seq in itertools.product(alpha, repeat=d):
+                if _ok_history(seq):
+                    add('l', seq, 'H')
+    return out
+
+
+@group('C14/history', configs=history_configs,
+       functions=['thermosteam._stream:Stream._get_property', 'thermosteam._multi_stream:MultiStream._get_property',
+                  'thermosteam._stream:Stream.reset_cache', 'thermosteam._stream:Stream.proxy', 'thermosteam._stream:Stream.link_with',
+                  'thermosteam._stream:Stream._reset_thermo', 'thermosteam._stream:Stream.mix_from', 'thermosteam._stream:Stream.scale',
+                  'thermosteam._stream:Stream.phase', 'thermosteam._stream:Stream.phases', 'thermosteam._multi_stream:MultiStream.phase',
+                  'thermosteam._multi_stream:MultiStream.phases', 'thermosteam._multi_stream:MultiStream.__getitem__'],
+       assumptions=['A-models'])
+def history(w, cfg):
+    x = X(w, cfg['kind'])
+    run_history(x, cfg['ops'])
+    props = [cfg['final']] + [p for p in ('H', 'sigma', 'V', 'S') if p != cfg['final']]
+    final_reads(x, props)
+    _canary(x, 'H')
